@@ -291,7 +291,7 @@ def run(ctx):
         "invariances - tested on the implementation with an exact rational oracle",
         "sign of reliability/potential/uncertainty in binary64 (proved over the reals; tested strictly in binary64)",
         "Python wrapper glue (atleast_1d/astype/squeeze, Series/DataFrame labels read by name)"]
-    proved = cm.prove(ctx)
+    proved = cm.prove_with_kernels(ctx, ["c_crps"])
     cm.use_impl()
     rng = ctx.rng
     ncases = ctx.scale(700, 9000)
